@@ -497,7 +497,8 @@ def check(prop, tier, seed, only=None, only_bin=None):
     ev["assumptions"] = PROPS.ASSUMPTIONS_COMMON + cfg.get("assumptions", [])
     ev["violations"] = len(violations)
     ev["wall_s"] = round(time.time() - t0, 2)
-    write_evidence(prop, ev)
+    if only is None:      # a replay of one case must not overwrite the evidence of the last full run
+        write_evidence(prop, ev)
     shutil.rmtree(rundir, ignore_errors=True)
     for l in known_lines: print(l)
     for (path, suffix) in violations:
